@@ -50,18 +50,36 @@ class SecsIRig:
     def activity(self):
         return (self.pipe.activity, len(self.delivered))
 
-    def wait(self, predicate, timeout=5.0):
+    def wait(self, predicate, timeout=5.0, min_idle=0.4):
+        """Wait until predicate() holds; give up early only when the rig has been idle for `min_idle` seconds without it.
+
+        A thread that was just woken (Event.set) still looks parked until the OS schedules it, and on a loaded machine
+        that can take a while: idleness is only believed after it persisted, over many samples, for `min_idle` seconds.
+        On a correct tree the predicate normally becomes true within milliseconds, so the patience costs nothing."""
         deadline = time.monotonic() + timeout
+        idle_since = None
         while time.monotonic() < deadline:
             if predicate():
                 return True
             if self.pipe.inbox_empty() and stuck.wait_idle(self.activity, timeout=0.02, settle=0.002, samples=3):
-                if predicate():
-                    return True
-                if self.pipe.inbox_empty() and stuck.wait_idle(self.activity, timeout=0.3, settle=0.012, samples=6):
+                now = time.monotonic()
+                if idle_since is None:
+                    idle_since = now
+                elif now - idle_since >= min_idle:
                     return predicate()
-            time.sleep(0.0003)
+            else:
+                idle_since = None
+            time.sleep(0.001)
         return predicate()
+
+    def confirm_absent(self, predicate, grace=2.0):
+        """Pure wall-clock grace before an expected effect is called absent (see hsmsrig.Rig.confirm_absent)."""
+        end = time.monotonic() + max(grace, 2.0)
+        while time.monotonic() < end:
+            if predicate():
+                return False
+            time.sleep(0.005)
+        return not predicate()
 
     def next_bytes(self, n=1, timeout=5.0):
         """Bytes the SUT wrote that the scripted peer has not consumed yet (waits for at least n)."""
